@@ -57,6 +57,7 @@ theorem tri3FootFixed_along : FootAlongNormal tri3FootFixed := by
   apply V3.eq_of <;> ring
 
 set_option linter.unreachableTactic false in
+set_option linter.unusedTactic false in
 /-- whichever of the two foots the model of /repo currently uses -/
 theorem tri3FootRepo_along : FootAlongNormal tri3FootRepo := by
   intro p0 p1 p2 x
